@@ -31,6 +31,7 @@ import Hw.Attr.CpuKindsRefine
 import Hw.Attr.CpuKindsClasses
 import Hw.Attr.CpuKindsAllowedLemmas
 import Hw.Attr.CpuKindsStrategies
+import Hw.Attr.CpuKindsStrategiesAllowed
 namespace Hw.Props.C15
 open Hw Hw.CpuKinds
 
@@ -679,6 +680,35 @@ theorem C15_env_history_refinement (root : Nat) (h : List EOp) :
     (absRun root (h.map (·.2))).root = (runE root h).root :=
   runE_refines root h
 
+/-- env-switching histories on INCLUDE_DISALLOWED topologies with `hwloc_topology_allow` calls mixed in reduce to plain
+    env-switching histories (allow calls erased, restricts refused for missing the allowed cpuset turned into refused
+    restricts, every call keeps its strategy): every `runE` / `runET` theorem above holds for `runTE`. -/
+theorem C15_env_allow_history_reduces (root : Nat) (d : Bool) (h : List ETOp) :
+    (runTE root d h).st = runE root (traceTE (tinit root d) h) :=
+  runTE_eq_runE root d h
+
+/-- e.g. the ranking: after ANY such history the array is ranked w.r.t. the strategy of the last ranking call -/
+theorem C15_env_allow_history_ranked (root : Nat) (d : Bool) (h : List ETOp) :
+    Ranked (runET root (traceTE (tinit root d) h)).2 (runTE root d h).st.kinds := by
+  rw [runTE_eq_runE, ← runET_fst]
+  exact runET_ranked root _
+
+/-- the C comment "rank first by coretype (Core >> Atom) then by frequency" holds as long as the frequency summaries stay
+    below 2^20 MHz: the value `(intel_core_type << 20) + freq` then compares kinds lexicographically by (core type,
+    frequency); the core-type summary is at most 2. -/
+theorem C15_coretype_frequency_lexicographic (hb : Bool) (a b : Kind)
+    (ha : freqKey hb a < 1048576) (hb' : freqKey hb b < 1048576) :
+    (ctFreqKey hb a < ctFreqKey hb b ↔
+      (summarize a).coreType < (summarize b).coreType ∨
+      ((summarize a).coreType = (summarize b).coreType ∧ freqKey hb a < freqKey hb b)) ∧
+    (summarize a).coreType ≤ 2 :=
+  ⟨ctFreqKey_lex hb a b ha hb', summarize_coreType_le a⟩
+
+/-- the cross-check the driver performs after every line of the differential run never fails on the model -/
+theorem C15_driver_crosscheck (root : Nat) (h : List EOp) :
+    specOK (runET root h).2 (runET root h).1.kinds = true :=
+  runET_specOK root h
+
 /-! non-vacuity of the A7 theorems -/
 -- `C15_rank_consistent_with_forced`: an array that is NOT reachable (overlapping cpusets, stale efficiencies) meets the
 -- hypotheses and is reordered
@@ -715,5 +745,19 @@ example :
     (runE 0xff (h ++ [(.forced, .refresh)])).kinds.map (fun k => (k.cpuset, k.eff)) = [(0xf0, 0), (0x0f, 1)] ∧
     (runET 0xff (h ++ [(.forced, .refresh), (.none, .restrict 0xff), (.none, .dup)])).2 = .forced ∧
     ranks (runE 0xff h) ((Strategy.forced, Op.refresh) : EOp) = true ∧ (h ++ [((Strategy.forced, Op.refresh) : EOp)]).all intForcedE = true := by decide
+-- `C15_coretype_frequency_lexicographic`: hypotheses met by a hybrid pair; beyond 2^20 the order is no longer lexicographic
+example :
+    let a : Kind := { cpuset := 1, eff := -1, forced := -1, infos := [("CoreType", "IntelAtom"), ("FrequencyBaseMHz", "3000")] }
+    let b : Kind := { cpuset := 2, eff := -1, forced := -1, infos := [("CoreType", "IntelCore"), ("FrequencyBaseMHz", "2000")] }
+    let c : Kind := { cpuset := 4, eff := -1, forced := -1, infos := [("CoreType", "IntelAtom"), ("FrequencyBaseMHz", "2097152")] }
+    freqKey true a < 1048576 ∧ freqKey true b < 1048576 ∧ ctFreqKey true a < ctFreqKey true b ∧
+    ¬ freqKey true c < 1048576 ∧ ctFreqKey true b < ctFreqKey true c := by decide
+-- env-switching history with allow calls: the trace keeps the strategies and erases the allow call
+example :
+    let h : List ETOp := [(.none, .allow (some 0x3f) 4), (.none, .op (.register (some 0x0f) 10 [] 0)),
+                          (.forced, .op (.register (some 0xf0) 5 [] 0)), (.coretype, .op (.restrict 0xc0))]
+    (runTE 0xff true h).st.kinds.map (fun k => (k.cpuset, k.eff)) = [(0xf0, 0), (0x0f, 1)] ∧
+    (traceTE (tinit 0xff true) h).map (·.1) = [.none, .forced, .coretype] ∧
+    (runET 0xff (traceTE (tinit 0xff true) h)).2 = .forced := by decide
 
 end Hw.Props.C15
